@@ -187,6 +187,17 @@ WRelocInit ==
            @@ (Q :> <<>>) @@ (PB :> LibB(PB)) @@ (PC :> LibC(PC)),
          {P, Q}, <<A>>, {}, {}, {PB, PC, P}, {"e"}, {PC})
 
+\* two package levels: p.q.c reaches its grand-parent package with a bare  from .. import b  (level 2,
+\* no module name) and a named one; it can be moved, renamed, turned into a package, its package p.q can
+\* be moved, and its definition f (which uses both imported names) can be moved out
+WRelocDeep ==
+  MWorld("relocdeep",
+         (A :> <<>>) @@ (P :> <<>>) @@ (PQ :> <<>>) @@ (PB :> LibB(PB)) @@ (T :> <<>>)
+           @@ (PQC :> <<From(2, <<>>, <<FromItem("b", "")>>), From(2, <<"b">>, <<FromItem("g", "")>>),
+                       FnR("f", PQC, <<<<"b", "f">>, <<"g">>>>), Use(<<"f">>, FALSE)>>),
+         {P, PQ}, <<A>>, {PQC}, {T}, {PQC, PQ}, {"e"}, {PQC})
+WorldsRelocDeep == {WRelocDeep}
+
 WorldsReloc == {WReloc, WRelocIn}
 WorldsRelocInit == {WRelocInit}
 WorldsRelIn == {WMovePkgIn, WRelocIn}
